@@ -220,7 +220,9 @@ fn scenario(seed: u64, case: u64, out: &mut Vec<String>) {
     };
     let reg = Registry::new_custom(prefix, labels).unwrap();
     let mut objs: Vec<Obj> = Vec::new();
-    let nobj = 1 + rng.usize_below(6);
+    // one scenario in twenty-five is large: many objects, many steps (many children, long gathers)
+    let large = case % 25 == 3;
+    let nobj = if large { 20 + rng.usize_below(40) } else { 1 + rng.usize_below(6) };
     for i in 0..nobj {
         let name = format!("m{}_{}", i, rng.pick(&["a", "b:c", "total"]));
         let mut cl = HashMap::new();
@@ -274,7 +276,7 @@ fn scenario(seed: u64, case: u64, out: &mut Vec<String>) {
         reg.register(boxed).unwrap();
         objs.push(o);
     }
-    let nsteps = 3 + rng.usize_below(20);
+    let nsteps = if large { 400 + rng.usize_below(800) } else { 3 + rng.usize_below(20) };
     for step in 0..nsteps {
         if objs.is_empty() {
             break;
@@ -351,10 +353,10 @@ fn scenario(seed: u64, case: u64, out: &mut Vec<String>) {
                 }
             }
         }
-        if rng.chance(1, 4) {
+        if rng.chance(1, if large { 100 } else { 4 }) {
             emit(&format!("gather{}", step), &reg.gather());
         }
-        if rng.chance(1, 8) {
+        if rng.chance(1, if large { 200 } else { 8 }) {
             let mfs = match &objs[oi] {
                 Obj::C(x) => x.collect(),
                 Obj::IC(x) => x.collect(),
